@@ -51,6 +51,10 @@ func TestEngine(t *testing.T) {
 		runDet(t, seed, n, dir)
 	case "cl":
 		runCL(t, seed, n, dir)
+	case "pm":
+		runPM(t, seed, n, dir)
+	case "gammg":
+		runGammG(t, seed, n, dir)
 	default:
 		t.Fatalf("unknown engine %q", engine)
 	}
